@@ -218,6 +218,16 @@ def session_history(seed):
                 for kind in ("cutvalue", "cutvalue", "cutvalue", "textlen", "inflate", "truncate", "type", "flip",
                              "transparent", "emptystring"):
                     frames.append(sg.mutate(fr, kind)[0])
+    # every stored key is then asked for, with and without a Maximum Response Size too small for the answer (the
+    # session then holds an encoded response full of key material that it must not send - nor log)
+    for uid in range(1, 14):
+        for v, ms in ((12, None), (12, r.choice([8, 64, 100])), (r.choice([10, 14, 20]), r.choice([0, 16, 120]))):
+            try:
+                frames.append(G.encode_request(G.mkreq(v, [{"op": "get", "bid": None, "crypto": None, "uid": str(uid),
+                                                            "format": None, "compression": False, "wrap": None}],
+                                                       maxsize=ms)))
+            except Exception:
+                pass
     rig = S.Rig()
     lg.disable(lg.NOTSET)
     cap = Capture()
